@@ -233,6 +233,7 @@ Dispatch(c, m, n, a) ==
     [] m = "SK" /\ n = "got_pake"   ->      \* bytes_to_dict / hexstr_to_bytes on peer-supplied text
             IF a.z.k = "junk" \/ a.z.k = "enc" \/ a.z.k = "-" THEN Raise(c, "exc:SK.got_pake:parse")
             ELSE IF a.z.k = "pakebad" THEN Push(c, <<In("SK", "got_pake_bad", NoArgs)>>)
+            \* "pake" and "pakeinv" both carry a pake_v1 hex string
             ELSE Push(c, <<In("SK", "got_pake_good", a)>>)
     [] m = "R" /\ n = "got_message" ->      \* a = (side, phase, body)
             IF c.rkey = "-" THEN Raise(c, "assert:R.got_message:_key")
